@@ -57,6 +57,7 @@ func runC10(w *World, r *Report) {
 	c10OneCriticalSection(w, r, "C10-R8")
 	c10ReloadRegistersAll(w, r)
 	c10SiblingKeys(w, r)
+	c10KeyVerbatim(w, r, "C10-R11")
 	// "the bookkeeping after delete ... equals what the remaining tasks imply": ownership is released only when the
 	// persisted deletion really happened (C11-R8), and the deletion commits or fails as a whole (C12-R3)
 	defer r.importRules(runC11, "C10-", map[string]bool{"C11-R8": true})
